@@ -647,3 +647,35 @@ def _m41():
     from bfg9000 import environment as benv
     _patch_source(benv.Environment, 'load', 'if version > cls.version:',
                   'if version > cls.version + 1:')
+
+
+@mutant('regen_ignores_extra')
+def _m42():
+    from bfg9000.builtins import find as bfind
+    _patch_source(bfind, 'find_check_cache',
+                  'regenerate = regenerate or results[0] != found or results[1] != extra',
+                  'regenerate = regenerate or results[0] != found')
+
+
+@mutant('regen_min_of_inputs')
+def _m43():
+    from bfg9000.builtins import find as bfind
+    _patch_source(bfind, 'find_check_cache', 'if ( max(_path.getmtime_ns(',
+                  'if ( min(_path.getmtime_ns(')
+
+
+@mutant('regen_no_touch_missing_check')
+def _m44():
+    from bfg9000.builtins import find as bfind
+    _patch_source(bfind, 'find_check_cache', 'if _path.exists(i, context.env.base_dirs):',
+                  'if True:')
+
+
+@mutant('glob_json_drops_type')
+def _m45():
+    from bfg9000 import glob as g
+
+    def from_json(cls, data):
+        from bfg9000.path import Path
+        return cls(Path.from_json(data['pattern']))
+    g.PathGlob.from_json = classmethod(from_json)
